@@ -78,7 +78,8 @@ fn open_or_fail(ctx: &mut Ctx, rng: &mut Rng, id: &str, c: &Case, cs: &[CommS], 
         Ok(o) => Some(o),
         Err(e) => {
             let sig = if e == "proof-not-key-defined" { "ipa/proof-not-key-defined" } else { "ipa/honest-open-refused" };
-            ctx.rep.expect_fail(id, sig, &format!("open: {}", e), c.replay(id, ctx.seed, "open(honest)"));
+            let what = if e == "proof-not-key-defined" { "open: the proof returned by the library is not the key-defined one (hiding commitment / randomness / rounds / L,R differ from the scalar prover)".to_string() } else { format!("open: {}", e) };
+            ctx.rep.expect_fail(id, sig, &what, c.replay(id, ctx.seed, "open(honest)"));
             None
         }
     }
@@ -135,7 +136,7 @@ fn c01(ctx: &mut Ctx) {
                         ctx.rep.expect_fail(&id, "ipa/honest-batch-rejected", &format!("honest batch not accepted: {:?}", out), c.replay(&id, ctx.seed, "batch_check(honest)"));
                     }
                 }
-                Err(e) => ctx.rep.expect_fail(&id, "ipa/honest-open-refused", &format!("batch_open: {}", e), c.replay(&id, ctx.seed, "batch_open(honest)")),
+                Err(e) => ctx.rep.expect_fail(&id, if e == "proof-not-key-defined" { "ipa/proof-not-key-defined" } else { "ipa/honest-open-refused" }, &format!("batch_open: {}", e), c.replay(&id, ctx.seed, "batch_open(honest)")),
             }
             counts(ctx, &c);
             ctx.rep.case(&c.desc(), Some(format!("ipa/{}/{}/{}/{}", c.s, npoly, bounds, hiding)));
@@ -190,7 +191,7 @@ fn c01(ctx: &mut Ctx) {
                         ctx.rep.expect_fail(&id, "ipa/honest-batch-rejected", &format!("honest batch with mixed hiding not accepted: {:?}", out), c.replay(&id, ctx.seed, "batch_check(honest, mixed hiding)"));
                     }
                 }
-                Err(e) => ctx.rep.expect_fail(&id, "ipa/honest-open-refused", &format!("batch_open: {}", e), c.replay(&id, ctx.seed, "batch_open(honest, mixed hiding)")),
+                Err(e) => ctx.rep.expect_fail(&id, if e == "proof-not-key-defined" { "ipa/proof-not-key-defined" } else { "ipa/honest-open-refused" }, &format!("batch_open: {}", e), c.replay(&id, ctx.seed, "batch_open(honest, mixed hiding)")),
             }
             ctx.rep.count("ipa/mixed-hiding");
             ctx.rep.case(&c.desc(), Some(format!("ipa/mixed-hiding/{}/{}", c.s, pi)));
@@ -743,7 +744,7 @@ fn batch_runs(ctx: &mut Ctx, prop: &str, per_degree: usize, shapes: bool) {
             let b = match batch_open(ctx, &mut rng, &id0, &c, &cs, &qs) {
                 Ok(b) => b,
                 Err(e) => {
-                    ctx.rep.expect_fail(&id0, "ipa/honest-open-refused", &format!("batch_open: {}", e), c.replay(&id0, ctx.seed, "batch_open"));
+                    ctx.rep.expect_fail(&id0, if e == "proof-not-key-defined" { "ipa/proof-not-key-defined" } else { "ipa/honest-open-refused" }, &format!("batch_open: {}", e), c.replay(&id0, ctx.seed, "batch_open"));
                     continue;
                 }
             };
@@ -935,6 +936,7 @@ impl NextU32 for Rng {
 
 fn c05(ctx: &mut Ctx) {
     batch_runs(ctx, "C05", ctx.n(2, 8), true);
+    d7(ctx, "C05");
 }
 
 // ------------------------------------------------------------------------------------------------
